@@ -2,6 +2,7 @@ import Req.Driver.Proto
 import Req.Client.Url
 import Req.Driver.WireUtil
 import Req.Client.Merge
+import Req.Client.ResendEdit
 import Req.H2.Fields
 import Req.H1.Origin
 import Req.H3.BodyWrite
@@ -232,7 +233,7 @@ def encodeHdr (h : List Req.HeaderSort.KV) : String :=
 /-- `c01pipe <method> <rawURL> <rPath> <cPath> <cScheme> <baseURL> <cQuery> <rQuery> <cHdr|nil> <rHdr>
 <cCookies> <rCookies> <bodyKind none|bytes|reader> <body> <allowGet>` → the `*http.Request` that
 `Client.roundTrip` hands to the transport. -/
-def lanePipe : List String → String
+def decodeApi : List String → Option Req.Merge.Api
   | [m, raw, rp, cp, sch, base, cq, rq, ch, rh, cc, rc, bk, body, ag] =>
     let ch? : Option (Option (List Req.HeaderSort.KV)) :=
       if ch == "nil" then some none else (Wire.decodeHdr ch).map some
@@ -244,21 +245,48 @@ def lanePipe : List String → String
       let bs? : Option Req.Merge.BodySpec :=
         if bk == "none" then some .none else if bk == "bytes" then some (.bytes body)
         else if bk == "reader" then some (.reader body) else if bk == "func" then some (.func body) else none
-      match bs? with
-      | none => "bad-op"
-      | some bs =>
-        let api : Req.Merge.Api :=
-          { method := m,
-            url := { rawURL := raw, rPath := rp, cPath := cp, cScheme := sch, baseURL := base,
-                     cQuery := cq, rQuery := rq },
-            cHeaders := ch, rHeaders := rh, cCookies := cc, rCookies := rc, body := bs,
-            allowGetPayload := ag }
-        match Req.Merge.buildRequest api with
-        | .error _ => "err"
-        | .ok r =>
-          showUrl r.url ++ s!" m={encodeHex r.method} host={encodeHex r.host} hdr={encodeHdr r.header} " ++
-            s!"cl={r.contentLength} hasbody={b01 r.hasBody} getbody={b01 r.getBody} " ++ Wire.showBlob r.body
-    | _, _, _, _, _, _, _, _, _, _, _, _, _, _ => "bad-op"
+      bs?.map fun bs =>
+        { method := m,
+          url := { rawURL := raw, rPath := rp, cPath := cp, cScheme := sch, baseURL := base,
+                   cQuery := cq, rQuery := rq },
+          cHeaders := ch, rHeaders := rh, cCookies := cc, rCookies := rc, body := bs,
+          allowGetPayload := ag }
+    | _, _, _, _, _, _, _, _, _, _, _, _, _, _ => none
+  | _ => none
+
+def showBuilt : Except Req.Url.Err Req.Merge.HttpReq → String
+  | .error _ => "err"
+  | .ok r =>
+    showUrl r.url ++ s!" m={encodeHex r.method} host={encodeHex r.host} hdr={encodeHdr r.header} " ++
+      s!"cl={r.contentLength} hasbody={b01 r.hasBody} getbody={b01 r.getBody} " ++ Wire.showBlob r.body
+
+def lanePipe (args : List String) : String :=
+  match decodeApi args with
+  | none => "bad-op"
+  | some api => showBuilt (Req.Merge.buildRequest api)
+
+/-- the edit that turns the caller's bookkeeping `a0` into `a1`, as an operation on the LIVE fields
+(`Request.Headers` / `Request.Cookies` hold what the earlier pass wrote into them): scalar fields,
+maps and the client's fields are assigned; every request header key whose entry changed is
+`Header[k] = vs`; cookies appended since are appended. -/
+def editTo (a0 a1 : Req.Merge.Api) (a : Req.Merge.Api) : Req.Merge.Api :=
+  { a with method := a1.method, url := a1.url, body := a1.body, allowGetPayload := a1.allowGetPayload,
+           cHeaders := a1.cHeaders, cCookies := a1.cCookies,
+           rHeaders := (a1.rHeaders.filter fun kv => !(a0.rHeaders.contains kv)).foldl
+                         (fun h kv => Req.Merge.hdrSet h kv.key kv.values) a.rHeaders,
+           rCookies := a.rCookies ++ a1.rCookies.drop a0.rCookies.length }
+
+/-- `c01resend <n> <15 fields of the first description> <15 fields of the edited description>`:
+the SAME Request transmitted, edited, then retried `n` times (`n = 0`: sent a second time) —
+`ResendEdit.run` of the code as it is; answer: every transmission, ` | `-separated. -/
+def laneResend : List String → String
+  | n :: rest =>
+    match n.toNat?, decodeApi (rest.take 15), decodeApi (rest.drop 15) with
+    | some n, some a0, some a1 =>
+      let ops : List Req.ResendEdit.Op :=
+        [.send, .edit (editTo a0 a1)] ++ (if n == 0 then [.send] else List.replicate n .retry)
+      " | ".intercalate ((Req.ResendEdit.run .asIs { api := a0 } ops).map showBuilt)
+    | _, _, _ => "bad-op"
   | _ => "bad-op"
 
 /-! ### request-body DATA framing (HTTP/2, HTTP/3) -/
@@ -565,6 +593,7 @@ def lanes : List (String × (List String → String)) := [
   ("c01h2wire", laneH2Wire),
   ("c01attempts", laneAttempts),
   ("c01pipe", lanePipe),
+  ("c01resend", laneResend),
   ("c01h1", laneH1),
   ("c01url", laneUrl),
   ("c01chunks", laneChunks),
